@@ -9,6 +9,13 @@ mod table;
 use self::{common::BiasedFp, float::RawFloat, table::POWER_OF_FIVE_128};
 use crate::arch::simd_str2int;
 
+/// Verification hook (`--cfg sonic_rs_verif`): the crate-private digit-run primitive.
+#[cfg(sonic_rs_verif)]
+#[doc(hidden)]
+pub mod verif {
+    pub use crate::arch::simd_str2int;
+}
+
 const FLOATING_LONGEST_DIGITS: usize = 17;
 const F64_BITS: u32 = 64;
 const F64_SIG_BITS: u32 = 52;
